@@ -9,6 +9,10 @@
 #include "cmd_simx.h"
 #include "cmd_mem.h"
 #include "cmd_fileio.h"
+#include "cmd_det.h"
+#include "cmd_util.h"
+#include "cmd_listing.h"
+#include "cmd_macro.h"
 
 static void register_all()
 {
@@ -21,4 +25,8 @@ static void register_all()
   register_simx();
   register_mem();
   register_fileio();
+  register_det();
+  register_util();
+  register_listing();
+  register_macro();
 }
